@@ -15,7 +15,7 @@ LANEDIR = '/tmp/mutlane_%s_%d' % (OP, LANE)
 REPO = os.path.join(LANEDIR, 'repo')
 VERIF = os.path.join(LANEDIR, 'verif')
 CHECKS = {'isdigit': ['C01', 'C15'], 'nostrip': ['C02', 'C03', 'C01'], 'slashd': ['C15', 'C01'], 'fmtraw': ['C04'],
-          'exc': ['C01', 'C12'], 'nodigits': ['C01', 'C15'], 'isvalidexc': ['C01'], 'valraw': ['C03', 'C02', 'C01']}[OP]
+          'exc': ['C01', 'C12'], 'nodigits': ['C01', 'C15'], 'isvalidexc': ['C01'], 'valraw': ['C03', 'C02', 'C01'], 'convraw': ['C08']}[OP]
 
 
 def sh(cmd, **kw):
@@ -60,6 +60,12 @@ def mutate(src):
         if m and 'number = compact(number)' in m.group(0):
             body = m.group(0).replace('number = compact(number)', 'number = number.strip()', 1)
             return src[:m.start()] + body + src[m.end():]
+    if OP == 'convraw':      # a conversion function works on the text as written
+        for m in re.finditer(r'def (?:to_\w+|from_\w+|convert)\(number[^)]*\):.*?(?=\n\n\n|\Z)', src, re.S):
+            for pat in ('compact(number)', 'validate(number)'):
+                if pat in m.group(0):
+                    body = m.group(0).replace(pat, 'number', 1)
+                    return src[:m.start()] + body + src[m.end():]
     if OP == 'fmtraw':
         m = re.search(r'def format\(number[^)]*\):.*?(?=\n\n\n|\Z)', src, re.S)
         if m and 'compact(number)' in m.group(0):
@@ -89,6 +95,8 @@ def main():
                 continue
             if 'def validate(' not in src:
                 continue
+            if OP == 'convraw' and not re.search(r'def (to_|from_|convert\()', src):
+                continue
             new = mutate(src)
             if new is None or new == src:
                 continue
@@ -106,7 +114,7 @@ def main():
                     else:
                         res = {'m': name, 'op': OP, 'status': 'survived tests', 'checks': {}}
                         for c in CHECKS:
-                            p = sh('cd %s && ./check %s' % (VERIF, c), env=dict(os.environ, STDNUM_REPO=REPO, VERIF_ONLY=name, VERIF_SKIP_MC='1'), timeout=1800)
+                            p = sh('cd %s && ./check %s' % (VERIF, c), env=dict(os.environ, STDNUM_REPO=REPO, VERIF_ONLY=name, VERIF_SKIP_MC='1') if OP != 'convraw' else dict(os.environ, STDNUM_REPO=REPO), timeout=1800)
                             o = p.stdout.decode('utf-8', 'replace')
                             v = [ln for ln in o.splitlines() if ln.startswith('VIOLATION')]
                             res['checks'][c] = {'exit': p.returncode, 'first': v[0].split('#', 1)[-1].strip()[:160] if v else ''}
